@@ -84,6 +84,8 @@ Atoms == { A1, Rel(<<Step("child", T_name("", <<"t","e","x","t">>))>>), Abs(<<>>
            Abs(<<DoS, Step("child", T_text), Step("parent", T_node)>>), Abs(<<DoS, Step("child", T_any), Step("parent", T_node)>>),
            Call(<<"c","o","u","n","t">>, <<Abs(<<DoS, Step("child", T_node), Step("parent", T_node)>>)>>),
            Abs(<<DoS, Step("child", T_node), Step("parent", T_node), Step("parent", T_node)>>),
+           \* every predicate of a step applies, in order: *[1][@a] is not *[1]
+           Rel(<<StepP("child", T_any, <<IntE(1), Rel(<<Step("attribute", T_name("", <<"a">>))>>)>>)>>), Abs(<<DoS, StepP("child", T_any, <<IntE(2), IntE(1)>>)>>),
            \* brackets inside a literal are characters of the literal
            Lit(<<"(">>), Lit(<<"]">>), Lit(<<"[", "(", ":", ")">>), Call(<<"c","o","n","t","a","i","n","s">>, <<Rel(<<Self>>), Lit(<<")">>)>>) }
 BinOps == {"or", "and", "eq", "ne", "lt", "le", "gt", "ge", "add", "sub", "mul", "div", "mod", "union"}
